@@ -177,8 +177,26 @@ pub fn swarm(seed: u64, focus: &str, flags: &GenFlags) -> Swarm {
     };
     let mut hot_float_radices = Vec::new();
     if !fr.is_empty() {
-        for _ in 0..(1 + r.below(2)) {
-            hot_float_radices.push(*r.pick(&fr));
+        let first = *r.pick(&fr);
+        hot_float_radices.push(first);
+        // related keys collide: half the time the other hot radices come from the same family
+        // (powers of two / odd / even non-powers-of-two), which share code paths and tables
+        let family = |x: u8| -> u8 {
+            if x.is_power_of_two() {
+                0
+            } else if x % 2 == 1 {
+                1
+            } else {
+                2
+            }
+        };
+        for _ in 0..r.below(3) {
+            let same: Vec<u8> = fr.iter().copied().filter(|x| family(*x) == family(first) && *x != first).collect();
+            if !same.is_empty() && r.chance(1, 2) {
+                hot_float_radices.push(*r.pick(&same));
+            } else {
+                hot_float_radices.push(*r.pick(&fr));
+            }
         }
     }
     let n_exp = 1 + r.below(3) as usize;
